@@ -379,6 +379,55 @@ pub fn steady(base: &FdCfg, arrivals: u64) -> (Tally, Vec<Viol>) {
             patterns.push((0..p).map(|i| mask & (1 << i) != 0).collect());
         }
     }
+    // returning member: the window is filled (and wrapped) by a first life, the member is found dead
+    // after a long silence, then resumes steady heartbeats: once two fresh values arrived after the
+    // return (the first one only restarts the clock) every evaluation must say live again
+    for pat in patterns.clone() {
+        tally.inc("schedules");
+        let mut o = Observer::new(cfg);
+        let mut evals = 0u64;
+        let mut bad = None;
+        let first_life = (cfg.window as u64).min(1_100) + 3;
+        let res = guarded(|| {
+            for _ in 0..first_life {
+                o.step(Ev::Fresh);
+                o.step(Ev::AdvA);
+            }
+            let (v0, _) = o.step(Ev::Eval);
+            if v0 != Some(true) {
+                bad = Some(("C11", format!("steady heartbeats every {a} ms not live after {first_life} arrivals"), "steady-member-flagged".to_string()));
+                return;
+            }
+            o.step(Ev::AdvBoundPlus);
+            o.step(Ev::Eval);
+            let mut since_return = 0u64;
+            let mut i = 0usize;
+            while since_return < arrivals.min(60) {
+                o.step(Ev::Fresh);
+                since_return += 1;
+                let adv = if pat[i % pat.len()] { Ev::AdvB } else { Ev::AdvA };
+                i += 1;
+                o.step(adv);
+                let (verdict, viol) = o.step(Ev::Eval);
+                evals += 1;
+                if let Some(x) = viol {
+                    bad = Some((x.0, x.1, x.2));
+                    return;
+                }
+                if since_return >= 2 && verdict == Some(false) {
+                    bad = Some(("C11", format!("a member that returned after a silence and sends steady heartbeats every {a}/{b} ms (pattern {pat:?}) is flagged dead at its arrival {since_return} after the return (window {}, first life of {first_life} arrivals, phi_threshold {thr})", cfg.window), "returning-steady-member-flagged".into()));
+                    return;
+                }
+            }
+        });
+        tally.add("evaluations", evals);
+        let replay = json!({"engine":"fd","kind":"steady","config":cfg.json(),"pattern":pat,"arrivals":arrivals,"returning":true});
+        if let Err(p) = res {
+            viols.push(Viol { prop: "C11", what: format!("panic: {p}"), sig: format!("panic:{}", short_loc(&p)), replay });
+        } else if let Some((p, what, sig)) = bad {
+            viols.push(Viol { prop: p, what, sig, replay });
+        }
+    }
     for pat in patterns {
         tally.inc("schedules");
         let mut o = Observer::new(cfg);
@@ -491,7 +540,7 @@ pub fn run(property: &'static str, tier: Tier, started: Instant) -> Vec<Part> {
 
     if property == "C11" {
         let mut s = Part::new("fd/steady-arrivals");
-        s.rule = "fresh heartbeats at intervals drawn from {a, b} (every pattern of period <= 3, a = max_interval/4, b = max_interval/2), an evaluation after every interval, phi_threshold = b / min(a, initial_interval) x (1 + 1e-6), for every (window, initial, max) of the grid: from the third value on every evaluation must say live".into();
+        s.rule = "fresh heartbeats at intervals drawn from {a, b} (every pattern of period <= 3, a = max_interval/4, b = max_interval/2), an evaluation after every interval, phi_threshold = b / min(a, initial_interval) x (1 + 1e-6), for every (window, initial, max) of the grid: from the third value on every evaluation must say live; and the returning-member variant: a first life long enough to wrap the sampling window, a silence beyond the bound (found dead), then steady heartbeats again: from the second value after the return on, every evaluation must say live".into();
         let mut viols = vec![];
         let mut seen = std::collections::BTreeSet::new();
         for cfg in &cfgs {
